@@ -3,6 +3,7 @@ package socks5
 import (
 	"context"
 	"errors"
+	"golang.org/x/crypto/bcrypt"
 	"io"
 	"net"
 	"strconv"
@@ -224,7 +225,11 @@ func harnessC21Auth() {
 	pass := string(in[g+3+uLen : g+3+uLen+pLen])
 	ok := false
 	if len(cfg.HashedUsers) > 0 {
-		ok = HashedCredentials(cfg.HashedUsers).Valid(user, pass)
+		// reference: the user has a stored hash and bcrypt reports a match (nil); any error,
+		// also "malformed hash", is a refusal
+		if hash, has := cfg.HashedUsers[user]; has {
+			ok = bcrypt.CompareHashAndPassword([]byte(hash), []byte(pass)) == nil
+		}
 	} else {
 		for k, v := range cfg.Users {
 			ok = ok || (k == user && v == pass)
@@ -239,5 +244,65 @@ func harnessC21Witness() {
 	h.Handle(c)
 	if d.dials == 1 {
 		verif_assert(false, "witness")
+	}
+}
+
+// ---------- C23: the success reply ----------
+
+type s5Target struct {
+	s5Conn
+	local net.IP
+}
+
+func (t *s5Target) LocalAddr() net.Addr { return &net.TCPAddr{IP: t.local, Port: 4321} }
+
+type s5OKDialer struct {
+	s5Dialer
+	target *s5Target
+}
+
+func (d *s5OKDialer) Dial(network, address string) (net.Conn, error) {
+	return d.DialContext(context.Background(), network, address)
+}
+func (d *s5OKDialer) DialContext(ctx context.Context, network, address string) (net.Conn, error) {
+	d.dials++
+	d.addr = address
+	return d.target, nil
+}
+
+// a successful CONNECT is answered by one well-formed reply whose bound address
+// is the target's local address, in whatever form that address is held
+// (4-byte, 16-byte IPv4, IPv6)
+func harnessC23Connect() {
+	var local net.IP
+	switch verif_choose(3) {
+	case 0:
+		local = net.IP{10, 0, 0, verif_nondet_u8()}
+	case 1:
+		local = net.IP{0, 0, 0, 0, 0, 0, 0, 0, 0, 0, 0xff, 0xff, 10, 0, 0, 5} // 16-byte form of an IPv4 address
+	case 2:
+		local = net.IP{0x20, 1, 0, 0, 0, 0, 0, 0, 0, 0, 0, 0, 0, 0, 0, verif_nondet_u8()}
+	}
+	d := &s5OKDialer{target: &s5Target{local: local}}
+	h := NewHandler([]Authenticator{&NoAuthAuthenticator{}}, d)
+	in := []byte{5, 1, 0, 5, CmdConnect, 0, AddrTypeIPv4, 192, 0, 2, verif_nondet_u8(), 0x1f, 0x90}
+	c := &s5Conn{in: in}
+	h.Handle(c)
+	verif_reach("C23/connect")
+	verif_assert(d.dials == 1, "C23/connect-not-dialled")
+	verif_assert(len(c.out) >= 2, "C23/connect-not-answered")
+	if len(c.out) < 2 {
+		return
+	}
+	r := c.out[1]
+	verif_assert(s5WellFormedReply(r) && r[1] == ReplySucceeded, "C23/reply-malformed")
+	if !s5WellFormedReply(r) {
+		return
+	}
+	if v4 := local.To4(); v4 != nil {
+		verif_assert(r[3] == AddrTypeIPv4 && r[4] == v4[0] && r[7] == v4[3], "C23/reply-bound-address-wrong")
+		verif_assert(r[8] == 0x10 && r[9] == 0xe1, "C23/reply-bound-port-wrong")
+	} else {
+		verif_assert(r[3] == AddrTypeIPv6 && r[4] == local[0] && r[19] == local[15], "C23/reply-bound-address-wrong")
 	}
 }
